@@ -135,6 +135,9 @@ func (t *c03) udpChain(r *rand.Rand) {
 	sp, dp := rw(r), rw(r)
 	if r.Intn(2) == 0 {
 		dp = gen.PortClasses[r.Intn(len(gen.PortClasses))].Port
+		if r.Intn(2) == 0 { // both ports from the table: a resolver whose ephemeral port happens to be another service's port
+			sp = gen.PortClasses[r.Intn(len(gen.PortClasses))].Port
+		}
 	}
 	ttl := rb(r)
 	e := gen.DefaultEnv()
